@@ -411,6 +411,9 @@ func genCase(r *wire.Rng, n int, stream string, w *wire.Out) {
 	if g.f6 {
 		head = append(head, "f6")
 	}
+	if r.Chance(25, 100) {
+		head = append(head, "chain")
+	}
 	g.emit(head...)
 	// initial state present before the derived collection exists
 	for i, k := 0, r.Intn(6); i < k; i++ {
